@@ -221,8 +221,13 @@ def build(pym, cfg):
             if cfg["scaling"]:
                 akw["scaling"] = pym.AggScaling("max" if cfg["aggpar"] > 0 else "min", damping=0.0)
             if cfg["active"]:
-                akw["active_set"] = pym.AggActiveSet(lower_rel=0.1, upper_amt=0.95) if cfg["aggpar"] > 0 else \
-                    pym.AggActiveSet(upper_rel=0.9, lower_amt=0.05)
+                ak = cfg["oseed"] % 3       # value band + amount / amount only / value band only
+                if cfg["aggpar"] > 0:
+                    akw["active_set"] = [pym.AggActiveSet(lower_rel=0.1, lower_amt=0.1), pym.AggActiveSet(lower_amt=0.25),
+                                         pym.AggActiveSet(lower_rel=0.15)][ak]
+                else:
+                    akw["active_set"] = [pym.AggActiveSet(upper_rel=0.9, upper_amt=0.9), pym.AggActiveSet(upper_amt=0.75),
+                                         pym.AggActiveSet(upper_rel=0.85)][ak]
             vms = sig("vms")
             mods.append(H["Scale"](vm, vms, a=0.02, b=0.5))     # keeps rho*x far from the overflow range of exp()
             if cfg["agg"] == "PNorm":
